@@ -398,7 +398,7 @@ class Explorer(object):
                 return c
             if e.id in ('len', 'iter', 'str', 'int', 'bool', 'list', 'tuple', 'isinstance', 'range', 'enumerate', 'min', 'max', 'any', 'all', 'type', 'set', 'Set', 'sorted', 'sum', 'Map', 'dict', 'Array', '__regex__', 'reversed', 'Boolean', 'map', 'filter', 'zip'):
                 return ('builtin', e.id)
-            if e.id in getattr(self.port, 'modules', {}) or e.id in ('re', 'os', 'sys', 'math', 'JSON', 'Math', 'Object', 'Buffer', 'csv_utils', 'rbql_engine', 'rbql'):
+            if e.id in getattr(self.port, 'modules', {}) or e.id in ('re', 'os', 'sys', 'math', 'ast', 'JSON', 'Math', 'Object', 'Buffer', 'csv_utils', 'rbql_engine', 'rbql'):
                 return ('global', e.id)
             fd_ = self.port.func(self.modname, e.id, required=False) if hasattr(self.port, 'func') else None
             if fd_ is not None and isinstance(fd_, ast.FunctionDef):
@@ -409,7 +409,7 @@ class Explorer(object):
                 defs_ = [st for st in mod_.body if isinstance(st, ast.Assign) and len(st.targets) == 1 and isinstance(st.targets[0], ast.Name) and st.targets[0].id == e.id]
                 def plain_(x):
                     # names a module-level table may mention: container constructors, module functions, module constants
-                    return x.id in ('Map', 'Set', 'dict', 'set', 'list', 'tuple', 'None', 'True', 'False', 'null', 'undefined') or x.id in self.port.module_consts(self.modname) \
+                    return x.id in ('Map', 'Set', 'dict', 'set', 'list', 'tuple', 'None', 'True', 'False', 'null', 'undefined', 'ast', 're') or x.id in self.port.module_consts(self.modname) \
                         or isinstance(self.port.func(self.modname, x.id, required=False), ast.FunctionDef)
                 if len(defs_) == 1 and isinstance(defs_[0].value, (ast.Dict, ast.List, ast.Tuple, ast.Set, ast.Call, ast.Constant)) and all(plain_(x) for x in ast.walk(defs_[0].value) if isinstance(x, ast.Name)) \
                         and not any(isinstance(x, ast.Call) and not (isinstance(x.func, ast.Name) and x.func.id in ('Map', 'Set', 'dict', 'set', 'list', 'tuple', 'frozenset')) for x in ast.walk(defs_[0].value)):
@@ -628,7 +628,7 @@ class Explorer(object):
         if sup is not _NO_SUPER:
             return sup
         if isinstance(e.func, ast.Attribute):
-            if isinstance(e.func.value, ast.Name) and e.func.value.id not in env and (e.func.value.id in ('JSON', 'Math', 'Object', 'Array', 'Number', 'String', 'Buffer', 're', 'os', 'sys', 'math') or e.func.value.id in getattr(self.port, 'modules', {})):
+            if isinstance(e.func.value, ast.Name) and e.func.value.id not in env and (e.func.value.id in ('JSON', 'Math', 'Object', 'Array', 'Number', 'String', 'Buffer', 're', 'os', 'sys', 'math', 'ast') or e.func.value.id in getattr(self.port, 'modules', {})):
                 recv = ('global', e.func.value.id)
             else:
                 recv = self.expr(e.func.value, env)
@@ -640,6 +640,7 @@ class Explorer(object):
                 args.append(self.expr(a, env))
         kwargs = {k.arg: self.expr(k.value, env) for k in e.keywords if k.arg}
         if self.on_call is not None:
+            self.last_kwargs = kwargs          # keyword arguments of the call the hook is asked about
             v = self.on_call(self, e, fname, recv, args)
             if v is not NOT_HANDLED:
                 return v
@@ -784,6 +785,12 @@ class Explorer(object):
             return list(reversed(args[0]))
         if name in ('set', 'Set') and len(args) == 1 and isinstance(args[0], (list, tuple, set)) and all(isinstance(x, (int, str)) or isinstance(x, Abs) for x in args[0]):
             return set(args[0])
+        if name == 'type' and len(args) == 1 and type(args[0]) in (int, str, bool, float, list, tuple, dict):
+            return ('builtin', type(args[0]).__name__)       # the class object, as the name `int` / `str` evaluates
+        if name == 'isinstance' and len(args) == 2 and type(args[0]) in (int, str, bool, float, list, tuple, dict, type(None)):
+            cl_ = [args[1]] if isinstance(args[1], tuple) and len(args[1]) == 2 and args[1][0] == 'builtin' else (list(args[1]) if isinstance(args[1], (list, tuple)) else [args[1]])
+            if all(isinstance(c_, tuple) and len(c_) == 2 and c_[0] == 'builtin' and c_[1] in ('int', 'str', 'bool', 'float', 'list', 'tuple', 'dict') for c_ in cl_):
+                return isinstance(args[0], tuple({'int': int, 'str': str, 'bool': bool, 'float': float, 'list': list, 'tuple': tuple, 'dict': dict}[c_[1]] for c_ in cl_))
         if name == 'type' and len(args) == 1 and isinstance(args[0], Abs) and 'cls' in args[0].props:
             return ('class', args[0].props['cls'])
         if name == 'isinstance' and len(args) == 2 and isinstance(args[1], tuple) and args[1] and args[1][0] == 'class':
